@@ -485,28 +485,38 @@ def c06_stream_clause(spec, acc):
             packets.extend(pk)
         stream = b"".join(packets)
         cuts = sorted(rng.sample(range(1, max(2, len(stream))), min(len(stream) - 1, rng.choice([0, 1, 5, 20])))) if len(stream) > 2 else []
+        if rep % 3 == 1:
+            # a read boundary one byte into every packet (inside the AA|55 marker / the type byte / the first digit)
+            pos, cuts = 0, []
+            for p_ in packets[:-1]:
+                pos += len(p_)
+                cuts.append(pos + 1)
+        cut_plans = [cuts]
+        if rep == 0:
+            cut_plans += [[c] for c in range(1, min(len(stream), 400))]        # a single cut at every offset
 
-        async def scenario(sim):
-            sim.spawn("connect")
-            await asyncio.sleep(0.1)
-            conn = sim.conns[0]
-            pos = 0
-            for c in cuts + [len(stream)]:
-                conn.feed(stream[pos:c])
-                pos = c
-                await asyncio.sleep(0.001)
-            await asyncio.sleep(0.5)
-            await sim.call("close")
-        sim, stats = run_session(kind, scenario)
-        acc.count("stream_sessions")
-        acc.case(("stream", spec["client"], stream))
-        got = [project.msg_proj(m, with_iso=False, with_hash=False) for m in sim.received]
-        want = [project.msg_proj(m, with_iso=False, with_hash=False) for m in msgs]
-        if stats["error"]:
-            acc.inconclusive_because(f"simulator: {stats['error']}")
-        elif got != want:
-            acc.violation("packet-stream-recut-differently", f"{spec['client']}: {len(msgs)} messages encoded, {len(got)} delivered by the receive path"
-                          + ("" if len(got) != len(want) else " (content differs)"),
-                          {"client": spec["client"], "stream_hex": stream.hex()[:2000], "cuts": cuts})
-        else:
-            acc.count("stream_messages_delivered", len(got))
+        for cuts in cut_plans:
+            async def scenario(sim, cuts=cuts):
+                sim.spawn("connect")
+                await asyncio.sleep(0.1)
+                conn = sim.conns[0]
+                pos = 0
+                for c in cuts + [len(stream)]:
+                    conn.feed(stream[pos:c])
+                    pos = c
+                    await asyncio.sleep(0.001)
+                await asyncio.sleep(0.5)
+                await sim.call("close")
+            sim, stats = run_session(kind, scenario)
+            acc.count("stream_sessions")
+            acc.case(("stream", spec["client"], stream, tuple(cuts)))
+            got = [project.msg_proj(m, with_iso=False, with_hash=False) for m in sim.received]
+            want = [project.msg_proj(m, with_iso=False, with_hash=False) for m in msgs]
+            if stats["error"]:
+                acc.inconclusive_because(f"simulator: {stats['error']}")
+            elif got != want:
+                acc.violation("packet-stream-recut-differently", f"{spec['client']}: {len(msgs)} messages encoded, {len(got)} delivered by the receive path"
+                              + ("" if len(got) != len(want) else " (content differs)"),
+                              {"client": spec["client"], "stream_hex": stream.hex()[:2000], "cuts": cuts[:40]})
+            else:
+                acc.count("stream_messages_delivered", len(got))
